@@ -247,7 +247,9 @@ pub fn compute_config_hash(config: &Config) -> String {
     // Only hash custom language definitions - these define comment syntax
     // which directly affects how LineStats are computed.
     // Predefined languages in LanguageRegistry are constant across versions.
-    let json = serde_json::to_string(&config.languages).unwrap_or_default();
+    // Ordered by name so that the hash is the same on every run
+    let ordered: std::collections::BTreeMap<_, _> = config.languages.iter().collect();
+    let json = serde_json::to_string(&ordered).unwrap_or_default();
     let mut hasher = Sha256::new();
     hasher.update(json.as_bytes());
     format!("{:x}", hasher.finalize())
